@@ -15,6 +15,7 @@ import (
 	"math/rand"
 	"net"
 	"runtime"
+	"strings"
 	"sync"
 	"testing"
 	"time"
@@ -203,9 +204,33 @@ func (g *fuzzGen) sized() []byte {
 	return b.Bytes()
 }
 
+// hostileNonce: a well-formed request with USERNAME, REALM and MESSAGE-INTEGRITY whose NONCE the
+// attacker made up: empty, one or two characters, not base36, far too long, or the server's own
+// nonce cut short, extended or with one character changed.
+func (g *fuzzGen) hostileNonce() []byte {
+	own := g.att.Nonce
+	cands := []string{"", "0", "1", "z", "ZZ", "00", "zzzz", "0000", "-1", "+", " ", "\x00", "!!!!", "zzzzzzzzzzzzzzzzzzzzzzzzzzzzzzzzzzzzzzzzzzzzzzzz",
+		strings.Repeat("z", 128), strings.Repeat("9", 763), "0" + own, own + "0", strings.ToLower(own)}
+	if len(own) > 1 {
+		cands = append(cands, own[:1], own[:len(own)/2], own[1:], own[:len(own)-1])
+		k := g.rng.Intn(len(own))
+		cands = append(cands, own[:k]+string("0Zz-"[g.rng.Intn(4)])+own[k+1:])
+	}
+	b := g.validMsg(false)
+	b.Add(wire.AttrUsername, []byte(g.att.User))
+	b.Add(wire.AttrRealm, []byte(g.att.Realm))
+	b.Add(wire.AttrNonce, []byte(pick(g.rng, cands)))
+	b.AddIntegrity(g.att.LTKey())
+
+	return b.Bytes()
+}
+
 func (g *fuzzGen) input() ([]byte, string) {
 	if g.rng.Intn(10) == 0 {
 		return g.sized(), "sized-near-buffer"
+	}
+	if g.rng.Intn(12) == 0 {
+		return g.hostileNonce(), "made-up-nonce-signed"
 	}
 	switch g.rng.Intn(12) {
 	case 0: // pure random
